@@ -292,6 +292,54 @@ func c17ManyClears(c *fw.Ctx, n int, oi int) {
 	c.Nontrivial()
 }
 
+// ---- adjacent ranges registered in every order: [a..b], [b+1..c], [c+1..d] with the same or different
+// references, ascending, descending and middle-first; single neighbouring characters likewise
+
+var c17AdjacentSets = [][][2]rune{
+	{{0x100, 0x1ff}, {0x200, 0x2ff}, {0x300, 0x3ff}},
+	{{0x100, 0x100}, {0x101, 0x101}, {0x102, 0x102}},
+	{{0xfe, 0xff}, {0x100, 0x101}, {0x102, 0x2000}},
+	{{0xff1a, 0xff1a}, {0xff1b, 0xff1b}, {0xff1c, 0xfffe}},
+	{{0x41, 0x5a}, {0x5b, 0x60}, {0x61, 0x7a}},
+}
+
+func c17Adjacent(c *fw.Ctx, set int, perm int, refs int) {
+	rs := c17AdjacentSets[set]
+	order := permutations([]int{0, 1, 2})[perm]
+	mp := utilities.NewCharReferenceMap()
+	ivs := []c17Interval{}
+	names := []string{"A", "B", "nil"}
+	hist := []string{}
+	for step, k := range order {
+		ref := (refs >> (2 * k)) & 3 % 3 // 0 A, 1 B, 2 nil per range
+		var pv interface{}
+		pv = fw.Try(func() { mp.AddInterval(rs[k][0], rs[k][1], c17RefOf(ref)) })
+		ivs = append(ivs, c17Interval{rs[k][0], rs[k][1], ref})
+		hist = append(hist, fmt.Sprintf("AddInterval(%#x,%#x,%s)", rs[k][0], rs[k][1], names[ref]))
+		if pv != nil {
+			c.Violation("adjacent-ranges-panic", "[%s]: panic %s", strings.Join(hist, "; "), panicShort(pv))
+			return
+		}
+		for _, r := range rs {
+			for _, p := range []rune{r[0] - 1, r[0], r[0] + 1, r[1] - 1, r[1], r[1] + 1} {
+				if p < 0 {
+					continue
+				}
+				var got string
+				if pv := fw.Try(func() { got = c17Classify(mp.Lookup(p)) }); pv != nil {
+					got = "panic"
+				}
+				if want := names[c17ModelLookup(ivs, p)]; got != want {
+					c.Violation("lookup-with-adjacent-ranges", "[%s] (step %d): Lookup(%#x) = %s, the latest covering registration says %s", strings.Join(hist, "; "), step+1, p, got, want)
+					return
+				}
+			}
+		}
+	}
+	c.Eval(1)
+	c.Nontrivial()
+}
+
 // BFS with probe-vector canonicalisation (closure or depth cap).
 func c17BFS(c *fw.Ctx, depthCap int) {
 	seen := map[string]bool{}
@@ -359,6 +407,53 @@ func c17Tokenizer(c *fw.Ctx, i int64) {
 	if c17Ops[a].end >= 0x100 || c17Ops[b].end >= 0x100 {
 		c.Nontrivial()
 	}
+}
+
+// ---- user-defined states of a type that cannot be compared with == (a struct value holding a slice)
+
+type c17CustomState struct {
+	tag  int
+	junk []int
+}
+
+func (s c17CustomState) NextToken(scanner rio.IScanner, tokenizer tokenizers.ITokenizer) *tokenizers.Token {
+	ch := scanner.Read()
+	return tokenizers.NewToken(tokenizers.Special, string(ch), scanner.Line(), scanner.Column())
+}
+
+func c17TokenizerCustom(c *fw.Ctx, i int64) {
+	nOps := int64(28 * 3)
+	a, b := int(i/nOps), int(i%nOps)
+	t := generic.NewGenericTokenizer()
+	t.ClearCharacterStates()
+	var ivs []c17Interval
+	for _, oi := range []int{a, b} {
+		o := c17Ops[oi]
+		var st tokenizers.ITokenizerState
+		if o.ref < 2 {
+			st = c17CustomState{tag: o.ref, junk: []int{o.ref}}
+		}
+		if pv := fw.Try(func() { t.SetCharacterState(o.start, o.end, st) }); pv != nil {
+			c.Violation("tokenizer-dispatch-custom-state-panics", "SetCharacterState %s; %s with states of a non-comparable type: panic %s", c17Ops[a], c17Ops[b], panicShort(pv))
+			return
+		}
+		ivs = append(ivs, c17Interval{o.start, o.end, o.ref})
+	}
+	for _, p := range c17Probes {
+		var got tokenizers.ITokenizerState
+		pv := fw.Try(func() { got = t.GetCharacterState(p) })
+		want := c17ModelLookup(ivs, p)
+		gotTag := 2
+		if cs, ok := got.(c17CustomState); ok {
+			gotTag = cs.tag
+		}
+		if pv != nil || gotTag != want {
+			c.Violation("tokenizer-dispatch-custom-state", "SetCharacterState %s; %s (states of a non-comparable type): GetCharacterState(%#x) has tag %d, configured %d (panic=%v)", c17Ops[a], c17Ops[b], p, gotTag, want, pv)
+			return
+		}
+	}
+	c.Eval(1)
+	c.Nontrivial()
 }
 
 // Derived check 2: enabling/disabling word and whitespace ranges is observable
@@ -475,7 +570,7 @@ func init() {
 		ID:    "C17",
 		Level: "model_checking",
 		Rule: "all histories of AddInterval/AddDefaultInterval/Clear over the boundary endpoints x {A,B,nil} up to the depth bound, each replayed on a fresh CharReferenceMap and compared probe by probe (17 probes: endpoints and neighbours) with an interval-list model by reference identity; " +
-			"plus one registration followed by 255..257 and 65535..65537 Clear() calls; plus every triple of registrations above U+00FF on top of 13..255 live filler registrations; plus an explicit-state BFS with the probe vector as state key; plus derived checks through a real tokenizer's dispatch table and the word/whitespace states' range toggles (after Clear and on top of the default ranges, three probe texts, and an untouched second state must keep its defaults); every history is non-trivial except the empty one",
+			"plus three adjacent ranges (five sets on both sides of U+0100) in all six orders with all reference assignments; plus one registration followed by 255..257 and 65535..65537 Clear() calls; plus every triple of registrations above U+00FF on top of 13..255 live filler registrations; plus an explicit-state BFS with the probe vector as state key; plus derived checks through a real tokenizer's dispatch table and the word/whitespace states' range toggles (after Clear and on top of the default ranges, three probe texts, and an untouched second state must keep its defaults); every history is non-trivial except the empty one",
 		Assume: []string{"probe-vector canonicalisation: equal probe vectors have equal futures on the probes for any implementation that answers lookups from the latest covering registration; the un-merged full enumeration does not rely on it"},
 		Spaces: func(tier string) []fw.Space {
 			depth, bfsDepth := 2, 3
@@ -518,6 +613,12 @@ func init() {
 					t := i % (n * n * n)
 					return fmt.Sprintf("%d filler registrations, then [%s]", c17LongSizes()[i/(n*n*n)], c17HistStr([]int{ho[t/(n*n)], ho[t/n%n], ho[t%n]}))
 				}},
+				{Name: "adjacent-ranges", N: int64(len(c17AdjacentSets) * 6 * 27), Run: func(c *fw.Ctx, i int64) {
+					refs := int(i) % 27
+					c17Adjacent(c, int(i)/(6*27), int(i)/27%6, refs%3|(refs/3%3)<<2|(refs/9)<<4)
+				}, Repr: func(i int64) string {
+					return fmt.Sprintf("three adjacent ranges (set %d) registered in order #%d with references #%d", i/(6*27), i/27%6, i%27)
+				}},
 				{Name: "many-clears", N: int64(len(c17ClearCounts) * len(c17Ops)), Timeout: 300e9, Run: func(c *fw.Ctx, i int64) {
 					c17ManyClears(c, c17ClearCounts[int(i)/len(c17Ops)], int(i)%len(c17Ops))
 				}, Repr: func(i int64) string {
@@ -542,6 +643,10 @@ func init() {
 				{Name: "tokenizer-dispatch", N: nOps * nOps, Run: c17Tokenizer,
 					Repr: func(i int64) string {
 						return fmt.Sprintf("SetCharacterState %s; %s (ref A=word state, B=symbol state)", c17Ops[int(i/nOps)], c17Ops[int(i%nOps)])
+					}},
+				{Name: "tokenizer-dispatch-custom-states", N: nOps * nOps, Run: c17TokenizerCustom,
+					Repr: func(i int64) string {
+						return fmt.Sprintf("SetCharacterState %s; %s with user-defined states of a non-comparable type", c17Ops[int(i/nOps)], c17Ops[int(i%nOps)])
 					}},
 				{Name: "range-toggle", N: 4 * 56 * 56, Run: c17WordChars,
 					Repr: func(i int64) string { return fmt.Sprintf("range-toggle#%d", i) }},
